@@ -31,7 +31,6 @@ FIXED = [
     (['C15'], 'dt/accepted-invalid/*', 'February 29', '"2023-02-29T00:00:00Z" accepted (as March 1)'),
     (['C01', 'C02', 'C07'], 'crash/msgpack/*/ubsan:msgpack_readers.cpp:load of misaligned address', 'misaligned loads', 'any MsgPack document with a multi-byte value at an odd offset: misaligned reinterpret_cast load (UBSan alignment)'),
     (['C01', 'C08', 'C13'], 'json/*/load|compare/stream-utf16|utf32', 'JSON streams in UTF-16/UTF-32', 'JSON saved to a UTF-16/32 stream with non-ASCII text could not be loaded (ParseStream without source encoding)'),
-    (['C01', 'C08'], 'json/*/compare/*/f64', 'error of up to 3 ULP', 'double 0x71c345dc8ea53499 saved as 1.0039996348836319e240 loaded as ...349a (no kParseFullPrecisionFlag); FLT_MAX rejected with Overflow'),
     (['C01', 'C08'], 'json/r_u32', 'truncated when saved as root JSON value', 'uint32_t 4000000000 at JSON root saved as -294967296'),
     (['C01', 'C08', 'C20'], 'json/*/load/ParsingException (nonfinite)', 'incomplete JSON was silently produced', '{1.0, NaN} saved to JSON as the truncated text "[1.0," without error'),
     (['C01', 'C09', 'C10'], 'csv/*/load/ParsingException:Missing trailing double-quotes', 'quoted CSV value could not be read by key from a stream', 'quoted CSV value in column >= 2 unreadable from a stream'),
@@ -53,6 +52,10 @@ FIXED = [
 ]
 
 KNOWN = [
+    ('C01', 'json/double-parsed-inexactly',
+     'about a third of random doubles saved to JSON are loaded 1-3 ULP off (e.g. bits 71c345dc8ea53499 saved as 1.0039996348836319e240 come back as ...349a): RapidJSON parses with kParseDefaultFlags; enabling kParseFullPrecisionFlag in RapidJSON 1.1.0 makes numbers such as 0.<400 zeros>1 read out of bounds in GetCachedPower10 (observed under UBSan/ASan), so the one-flag repair is not safe with this dependency'),
+    ('C01', 'json/float-max-rejected-after-inexact-parse',
+     'float +-FLT_MAX saved to JSON as 3.4028234663852886e38 is parsed (inexactly) as a slightly larger double and rejected with Overflow when loaded into float (same root cause as json/double-parsed-inexactly)'),
     ('C07', 'illformed-accepted/timestamp-nanoseconds-above-999999999',
      'timestamp 64/96 whose nanoseconds field exceeds 999999999 (forbidden by the specification, e.g. D7 FF FF FF FF FC 00 00 00 05) is accepted and the excess is carried into seconds instead of raising a parsing error; rejecting it breaks upstream test MsgPackArchive.SerializeClassWithTimestampAsKey which round-trips CBinTimestamp with arbitrary Nanoseconds'),
     ('C07', 'timestamp96/seconds-before-nanoseconds',
